@@ -10,7 +10,7 @@ namespace Cnfgen
 
 /-! ### `insertSorted`, `List.modify`, `range` helpers -/
 
-theorem mem_insertSorted {l : List Nat} {v x : Nat} :
+theorem mem_insertSorted_iff {l : List Nat} {v x : Nat} :
     x ∈ insertSorted l v ↔ x = v ∨ x ∈ l := by
   induction l with
   | nil => simp [insertSorted]
@@ -34,7 +34,7 @@ theorem pairwise_insertSorted {l : List Nat} {v : Nat} (hs : l.Pairwise (· < ·
       rw [List.pairwise_cons]
       refine ⟨?_, ih hs'.2 hvys⟩
       intro z hz
-      rw [mem_insertSorted] at hz
+      rw [mem_insertSorted_iff] at hz
       rcases hz with rfl | hz
       · omega
       · exact hs'.1 z hz
@@ -112,12 +112,12 @@ theorem wf_init (l r : Nat) : (BipG.init l r).WF where
   edges_nodup := by simp [init]
 
 /-- `has_edge` -/
-theorem hasEdge_iff (G : BipG) (u v : Int) :
+theorem hasEdge_iff_mem (G : BipG) (u v : Int) :
     G.hasEdge u v = true ↔ 0 ≤ u ∧ 0 ≤ v ∧ (u.toNat, v.toNat) ∈ G.edgeset := by
   simp [hasEdge, and_assoc]
 
 /-- case analysis of a successful `add_edge` -/
-theorem addEdge_cases {G G' : BipG} {u v : Int} (he : G.addEdge u v = .ok G') :
+theorem addEdge_cases_wf {G G' : BipG} {u v : Int} (he : G.addEdge u v = .ok G') :
     (1 ≤ u ∧ u ≤ G.l ∧ 1 ≤ v ∧ v ≤ G.r) ∧
     (((u.toNat, v.toNat) ∈ G.edgeset ∧ G' = G) ∨
      ((u.toNat, v.toNat) ∉ G.edgeset ∧
@@ -133,24 +133,24 @@ theorem addEdge_cases {G G' : BipG} {u v : Int} (he : G.addEdge u v = .ok G') :
     split at he
     · rename_i hh
       left
-      refine ⟨((hasEdge_iff G u v).1 hh).2.2, ?_⟩
+      refine ⟨((hasEdge_iff_mem G u v).1 hh).2.2, ?_⟩
       injection he with he
       exact he.symm
     · rename_i hh
       right
       refine ⟨?_, ?_⟩
       · intro hm
-        exact hh ((hasEdge_iff G u v).2 ⟨by omega, by omega, hm⟩)
+        exact hh ((hasEdge_iff_mem G u v).2 ⟨by omega, by omega, hm⟩)
       · injection he with he
         exact he.symm
 
-theorem addEdge_lr {G G' : BipG} {u v : Int} (he : G.addEdge u v = .ok G') :
+theorem addEdge_lr_wf {G G' : BipG} {u v : Int} (he : G.addEdge u v = .ok G') :
     G'.l = G.l ∧ G'.r = G.r := by
-  rcases (addEdge_cases he).2 with ⟨_, rfl⟩ | ⟨_, rfl⟩ <;> exact ⟨rfl, rfl⟩
+  rcases (addEdge_cases_wf he).2 with ⟨_, rfl⟩ | ⟨_, rfl⟩ <;> exact ⟨rfl, rfl⟩
 
 theorem wf_addEdge {G G' : BipG} {u v : Int} (h : G.WF) (he : G.addEdge u v = .ok G') :
     G'.WF := by
-  obtain ⟨hr, hc⟩ := addEdge_cases he
+  obtain ⟨hr, hc⟩ := addEdge_cases_wf he
   rcases hc with ⟨_, rfl⟩ | ⟨hfresh, rfl⟩
   · exact h
   · -- fresh edge
@@ -198,7 +198,7 @@ theorem wf_addEdge {G G' : BipG} {u v : Int} (h : G.WF) (he : G.addEdge u v = .o
       rw [hrow, List.mem_cons, Prod.mk.injEq]
       split
       · rename_i hx; subst hx
-        rw [mem_insertSorted, h.mem_row]; simp
+        rw [mem_insertSorted_iff, h.mem_row]; simp
       · rename_i hx
         rw [h.mem_row]
         constructor
@@ -211,7 +211,7 @@ theorem wf_addEdge {G G' : BipG} {u v : Int} (h : G.WF) (he : G.addEdge u v = .o
       rw [hcol, List.mem_cons, Prod.mk.injEq]
       split
       · rename_i hy; subst hy
-        rw [mem_insertSorted, h.mem_col]; simp
+        rw [mem_insertSorted_iff, h.mem_col]; simp
       · rename_i hy
         rw [h.mem_col]
         constructor
@@ -232,7 +232,7 @@ theorem wf_addEdge {G G' : BipG} {u v : Int} (h : G.WF) (he : G.addEdge u v = .o
 /-- membership in the edge set after an insertion -/
 theorem mem_addEdge {G G' : BipG} {u v : Int} (he : G.addEdge u v = .ok G') (a b : Nat) :
     (a, b) ∈ G'.edgeset ↔ ((a, b) ∈ G.edgeset ∨ ((a : Int) = u ∧ (b : Int) = v)) := by
-  obtain ⟨hr, hc⟩ := addEdge_cases he
+  obtain ⟨hr, hc⟩ := addEdge_cases_wf he
   rcases hc with ⟨hin, rfl⟩ | ⟨_, rfl⟩
   · constructor
     · intro hm; exact Or.inl hm
@@ -274,7 +274,7 @@ theorem wf_addEdgesFrom {G G' : BipG} {es : List (Int × Int)} (h : G.WF)
   | cons e es ih =>
     obtain ⟨G₁, h1, h2⟩ := addEdgesFrom_cons he
     have hw := wf_addEdge h h1
-    have hlr := addEdge_lr h1
+    have hlr := addEdge_lr_wf h1
     obtain ⟨hw', hl, hr⟩ := ih hw h2
     exact ⟨hw', by rw [hl, hlr.1], by rw [hr, hlr.2]⟩
 
@@ -384,25 +384,25 @@ theorem getD_cons_replicate (n u : Nat) (x : List Nat) :
     · have : ¬ (1 ≤ k + 1 ∧ k + 1 ≤ n) := by omega
       rw [if_neg this]; simp [hk]
 
-theorem complete_rnbrs' (l r u : Nat) :
+theorem completeB_rnbrs' (l r u : Nat) :
     (BipG.complete l r).rnbrs u = if 1 ≤ u ∧ u ≤ l then (List.range r).map (· + 1) else [] := by
   simp only [complete, rnbrs]
   exact getD_cons_replicate l u _
 
-theorem complete_lnbrs' (l r v : Nat) :
+theorem completeB_lnbrs' (l r v : Nat) :
     (BipG.complete l r).lnbrs v = if 1 ≤ v ∧ v ≤ r then (List.range l).map (· + 1) else [] := by
   simp only [complete, lnbrs]
   exact getD_cons_replicate r v _
 
-theorem complete_rnbrs (l r u : Nat) (hu : 1 ≤ u ∧ u ≤ l) :
+theorem completeB_rnbrs (l r u : Nat) (hu : 1 ≤ u ∧ u ≤ l) :
     (BipG.complete l r).rnbrs u = (List.range r).map (· + 1) := by
-  rw [complete_rnbrs', if_pos hu]
+  rw [completeB_rnbrs', if_pos hu]
 
-theorem complete_lnbrs (l r v : Nat) (hv : 1 ≤ v ∧ v ≤ r) :
+theorem completeB_lnbrs (l r v : Nat) (hv : 1 ≤ v ∧ v ≤ r) :
     (BipG.complete l r).lnbrs v = (List.range l).map (· + 1) := by
-  rw [complete_lnbrs', if_pos hv]
+  rw [completeB_lnbrs', if_pos hv]
 
-theorem mem_complete_edgeset (l r u v : Nat) :
+theorem mem_completeB_edgeset (l r u v : Nat) :
     (u, v) ∈ (BipG.complete l r).edgeset ↔ 1 ≤ u ∧ u ≤ l ∧ 1 ≤ v ∧ v ≤ r := by
   simp only [complete, List.mem_flatMap, List.mem_range, List.mem_map, Prod.mk.injEq]
   constructor
@@ -415,31 +415,31 @@ theorem wf_complete (l r : Nat) : (BipG.complete l r).WF where
   radj_len := by simp [complete]
   row_sorted := by
     intro u
-    rw [complete_rnbrs']
+    rw [completeB_rnbrs']
     split
     · exact pairwise_range_succ r
     · exact List.Pairwise.nil
   col_sorted := by
     intro v
-    rw [complete_lnbrs']
+    rw [completeB_lnbrs']
     split
     · exact pairwise_range_succ l
     · exact List.Pairwise.nil
   mem_row := by
     intro u v
-    rw [complete_rnbrs', mem_complete_edgeset]
+    rw [completeB_rnbrs', mem_completeB_edgeset]
     split
     · rw [mem_range_succ]; tauto
     · simp only [List.not_mem_nil, false_iff]; tauto
   mem_col := by
     intro u v
-    rw [complete_lnbrs', mem_complete_edgeset]
+    rw [completeB_lnbrs', mem_completeB_edgeset]
     split
     · rw [mem_range_succ]; tauto
     · simp only [List.not_mem_nil, false_iff]; tauto
   edge_range := by
     intro u v hm
-    exact (mem_complete_edgeset l r u v).1 hm
+    exact (mem_completeB_edgeset l r u v).1 hm
   edges_nodup := by
     show ((List.range l).flatMap (fun i => (List.range r).map (fun j => (i + 1, j + 1)))).Nodup
     rw [List.nodup_flatMap]
